@@ -22,6 +22,10 @@ import fuzzlib as F  # noqa
 GEN = os.path.join(ROOT, "work", "C29", "gen")
 SLOW_MS = 4000
 MAX_HANGS = 24
+# classes whose panic is not a function of the input alone: matched by panic site (see checks/c29.py site_class)
+NONDET = {"panic:hash_join-index-out-of-bounds-the-len-is-n-but-the-index-i": {
+    "site": "hash_join.rs", "msg_prefix": "index out of bounds",
+    "why": "the same input panics in ~85% of runs (run-time hash-table layout / partition timing); matched by panic site, not only by input hash"}}
 
 
 def tlc_statements(cfg, seeds_path, simulate=None, depth=None, seed=None):
@@ -103,8 +107,9 @@ def freeze():
                     dropped["hang-extra"] += 1
                     continue
                 hangs += 1
-            e = classes.setdefault(cls, {"inputs": [], "example": None})
+            e = classes.setdefault(cls, {"inputs": [], "example": None, "ms": {}})
             e["inputs"].append(c["h"])
+            e["ms"][c["h"]] = max(r2.get("ms", 20000 if r2["k"] == "hang" else 0) for r2 in recs)
             if e["example"] is None or (c["src"] == "seed" and e["example"].get("src") != "seed"):
                 e["example"] = {"sql": c["sql"][:400], "schema": r.get("s"), "outcome": r["k"], "msg": r.get("msg", r.get("stderr", ""))[:200],
                                 "loc": r.get("loc", ""), "src": c["src"]}
@@ -118,9 +123,12 @@ def freeze():
     for src, cs in bysrc.items():
         F.write_gz(os.path.join(F.CORPUS, f"{src}.ndjson.gz"), cs)
     F.write_gz(os.path.join(F.CORPUS, "seeds.ndjson.gz"), F.all_seeds())
+    F.write_hashes(F.load_corpus())
     os.makedirs(os.path.dirname(F.FINDINGS), exist_ok=True)
     json.dump({"comment": "C29: inputs (hash of the macro-form statement text) on which the UNCHANGED tree panics, aborts or hangs, "
-                          "grouped by class; generated by lib/fuzzgen.py freeze", "classes": dict(sorted(classes.items()))},
+                          "grouped by class; generated by lib/fuzzgen.py freeze; ms = run time observed at freeze time (used only to "
+                          "pick cheap representatives for the quick tier)",
+               "nondeterministic_classes": NONDET, "classes": dict(sorted(classes.items()))},
               open(F.FINDINGS, "w"), indent=1, ensure_ascii=False)
     print(f"kept {len(keep)} of {len(cands)}; dropped {dict(dropped)}")
     for k, v in sorted(classes.items()):
